@@ -254,3 +254,11 @@ theorem registerHandler_lists {ord : List Key} {H : SlotMap HInfo} {T : SlotMap 
   exact ⟨archListsOK_register hl hT hsmall hk hg hkey hidx hrecv, hworld⟩
 
 end Evenio
+
+/-! ## continuation (worker 3)
+
+The obligations of G3 are proved in files that import this seed (`lake build Evenio.Proofs.Inv.ListsAll`):
+`ListsFrame.lean` (frame rule `listsInv_of_frames` / `listsInv'_congr`), `ListsA.lean` (section A, all seven
+primitives), `ListsB.lean` (section B except `registerAll`), `ListsReg.lean` (`registerAll_keeps_lists`),
+`ListsE.lean` + `ListsE2.lean` (section E: `initParam_configRel_partial`), `ListsECex.lean`
+(`¬ Obl.initParam_configRel`, `¬ Obl.initParam_grows`). -/
